@@ -19,6 +19,7 @@ import (
 	"github.com/saucelabs/forwarder/internal/verifsim/simnet"
 	"github.com/saucelabs/forwarder/internal/verifsim/simtls"
 	"github.com/saucelabs/forwarder/internal/verifsim/tape"
+	"github.com/saucelabs/forwarder/internal/verifsim/verifsync"
 	"golang.org/x/net/http2"
 	"golang.org/x/net/http2/hpack"
 )
@@ -62,6 +63,8 @@ type h2Case struct {
 	Client h2Endpoint `json:"client"`
 	Server h2Endpoint `json:"server"`
 	GoAway bool       `json:"goaway"`
+	OutCh  int        `json:"out_ch"` // capacity of the relay's output channels (15 = shipped value)
+	Cap    int        `json:"cap"` // per-direction link capacity in bytes (0 = simulator default): small values make the relay's writers block
 	WOne   int        `json:"w_one"`
 	WRand  int        `json:"w_rand"`
 }
@@ -87,9 +90,17 @@ func genH2Msg(t *tape.Tape, mode string, isReq bool) h2Msg {
 		return m
 	}
 	nd := 1 + t.Pick(3, 3, 2, 1)
+	burst := t.Chance(1, 8)
+	if burst {
+		nd = 18 + t.Intn(14) // more small frames than the relay's output channel has slots
+	}
 	for i := 0; i < nd; i++ {
 		var sz int
-		switch t.Pick(4, 3, 2, 2, 1) {
+		k := t.Pick(4, 3, 2, 2, 1)
+		if burst {
+			k = 0
+		}
+		switch k {
 		case 0:
 			sz = 1 + t.Intn(500)
 		case 1:
@@ -170,6 +181,8 @@ func genH2(t *tape.Tape, tier, mode string) any {
 	c.Client = genH2Endpoint(t, mode, true, n)
 	c.Server = genH2Endpoint(t, mode, false, n)
 	c.GoAway = t.Chance(1, 8)
+	c.Cap = []int{0, 1024, 4096, 32768}[t.Pick(5, 2, 2, 1)]
+	c.OutCh = []int{15, 0, 1, 3}[t.Pick(5, 1, 1, 1)]
 	c.WOne = t.Pick(8, 1, 0)
 	c.WRand = t.Pick(2, 4, 2) * 2
 	return c
@@ -219,6 +232,7 @@ type h2Peer struct {
 	conn   net.Conn
 	fr     *http2.Framer
 	wmu    sync.Mutex // serialises frame writes
+	aw     *asyncWriter
 	mu     sync.Mutex
 	cond   *sync.Cond
 	closed bool
@@ -264,8 +278,67 @@ type h2Peer struct {
 	readErr        error
 }
 
+// asyncWriter queues writes and performs them in order on its own goroutine: the endpoints' frame writes (many
+// of them made from scheduler events) must never block the caller when a link is full.
+type asyncWriter struct {
+	w      io.Writer
+	mu     sync.Mutex
+	q      [][]byte
+	sig    chan struct{}
+	closed bool
+}
+
+func newAsyncWriter(w io.Writer) *asyncWriter {
+	a := &asyncWriter{w: w, sig: make(chan struct{}, 1)}
+	go func() {
+		for range a.sig {
+			for {
+				a.mu.Lock()
+				if len(a.q) == 0 {
+					a.mu.Unlock()
+					break
+				}
+				b := a.q[0]
+				a.q = a.q[1:]
+				a.mu.Unlock()
+				if _, err := a.w.Write(b); err != nil {
+					a.mu.Lock()
+					a.q = nil
+					a.mu.Unlock()
+				}
+			}
+		}
+	}()
+	return a
+}
+
+func (a *asyncWriter) Write(p []byte) (int, error) {
+	a.mu.Lock()
+	if a.closed {
+		a.mu.Unlock()
+		return 0, net.ErrClosed
+	}
+	a.q = append(a.q, append([]byte(nil), p...))
+	a.mu.Unlock()
+	select {
+	case a.sig <- struct{}{}:
+	default:
+	}
+	return len(p), nil
+}
+
+func (a *asyncWriter) stop() {
+	a.mu.Lock()
+	if !a.closed {
+		a.closed = true
+		close(a.sig)
+	}
+	a.mu.Unlock()
+}
+
 func newH2Peer(env *core.Env, name string, cfg *h2Endpoint, conn net.Conn) *h2Peer {
-	p := &h2Peer{name: name, env: env, cfg: cfg, conn: conn, fr: http2.NewFramer(conn, conn),
+	aw := newAsyncWriter(conn)
+	p := &h2Peer{name: name, env: env, cfg: cfg, conn: conn, aw: aw, fr: http2.NewFramer(aw, conn),
 		sendConnWin: 65535, peerInitWin: 65535, peerMaxFrame: 16384, peerTable: -1,
 		sendWin: map[uint32]int64{}, sentFC: map[uint32]int64{}, wuRecv: map[uint32]int64{}, sentHist: map[uint32][]h2Item{},
 		recvHist: map[uint32][]h2Item{}, recvConnWin: 65535, recvWin: map[uint32]int64{}, annInitWin: 65535, annMaxFrame: 16384,
@@ -739,6 +812,11 @@ func runH2(env *core.Env, ci any) {
 	env.Sched.Knobs.WOne, env.Sched.Knobs.WRand = c.WOne, c.WRand
 	env.Sched.Knobs.MaxSteps = 300000
 	env.Sched.Knobs.Horizon = time.Hour
+	if c.Cap > 0 {
+		n.DefaultCapacity = c.Cap
+	}
+	verifsync.SetKnob("h2-output-channel", c.OutCh)
+	env.Cleanup(verifsync.ClearKnobs)
 	ca := simtls.NewCA("verifsim CA")
 	h2.VerifTLSDial = func(network, addr string, cfg *tls.Config) (*tls.Conn, error) {
 		raw, err := n.Dial(context.Background(), "sut", addr)
@@ -1009,9 +1087,11 @@ func runH2(env *core.Env, ci any) {
 	// teardown
 	close(closing)
 	if client != nil {
+		client.aw.stop()
 		client.conn.Close()
 	}
 	if server != nil {
+		server.aw.stop()
 		server.conn.Close()
 	}
 	n.CloseAllListeners()
